@@ -347,7 +347,7 @@ func ruleStreamChannelsClosed(c *Ctx, rule string, complete *ssa.Function) {
 		return
 	}
 	closed := map[string]bool{}
-	allInstrs(complete, func(i ssa.Instruction) {
+	deepInstrs(complete, 2, func(i ssa.Instruction) {
 		call, ok := i.(*ssa.Call)
 		if !ok {
 			return
@@ -490,6 +490,32 @@ func ruleFlushCloses(c *Ctx, rule string, flush, cwe *ssa.Function) {
 		}
 	}
 	okD, found := false, false
+	// `if err := enc.CRLF(); isConnFailure(err) { … }`: a predicate that is true
+	// exactly for a non-nil error other than the refusal
+	for _, b := range flush.Blocks {
+		for si := range b.Succs {
+			for _, a := range edgeAtoms(b, si) {
+				call, ok := a.V.(*ssa.Call)
+				if !ok || a.True != 1 || len(call.Call.Args) == 0 {
+					continue
+				}
+				if !connFailurePredicate(staticCallee(call)) {
+					continue
+				}
+				fromCRLF := false
+				for _, arg := range call.Call.Args {
+					if cl, _ := callOf(arg); cl != nil && callKey(cl) == "(*Encoder).CRLF" {
+						fromCRLF = true
+					}
+				}
+				if !fromCRLF {
+					continue
+				}
+				found = true
+				okD = !escapesFrom(flush, b.Succs[si])
+			}
+		}
+	}
 	for _, b := range flush.Blocks {
 		for si := range b.Succs {
 			for _, fc := range failureCalls(b, si) {
